@@ -211,12 +211,14 @@ func (p *Protocol) ReadRequest(
 
 	// Reset the Reader to allow for properly reading the envelope if it
 	// exists.
+	seeked := false
 	if seeker, ok := r.(io.Seeker); ok {
-		// If the reader supports seking, use that.
-		if _, err := seeker.Seek(int64(-len(buf)), io.SeekCurrent); err != nil {
-			return nil, err
-		}
-	} else {
+		// If the reader supports seking, use that. (An *os.File has the
+		// method even when it is a pipe that cannot seek.)
+		_, err := seeker.Seek(int64(-len(buf)), io.SeekCurrent)
+		seeked = err == nil
+	}
+	if !seeked {
 		// Otherwise, create a new reader with the buffered bytes.
 		r = io.MultiReader(bytes.NewReader(buf[:]), r)
 	}
